@@ -20,11 +20,12 @@ EXPLANATION = ("Deductive: density scaling is a relational obligation on two sym
 def units(tier):
     return [N.U_CALC, N.U_CALC_SCALE, N.L_DENSITY_SCALING, N.L_COUNT_SCALING, F.L_SUM_HOMOGENEOUS,
             N.U_NS_WAVELENGTH, N.U_NS_ENERGY, N.U_WAVELENGTH, N.U_ENERGY, N.U_WAVELENGTH_V, N.U_ROUNDTRIP,
-            N.U_ANCHOR_E, N.U_ANCHOR_W, N.U_ANCHOR_V, N.U_SBW_PLAIN, N.U_SBW_TABLE] + F.U_FORMULA_OF_FORMULA
+            N.U_ANCHOR_E, N.U_ANCHOR_W, N.U_ANCHOR_V, N.U_SBW_PLAIN, N.U_SBW_TABLE] + F.U_FORMULA_OF_FORMULA + [F.U_FORMULA_NEUTRON_SLD]
 
 
 def runner_tasks(tier):
-    return [{"module": "c04", "task": "relations", "kind": "bounded", "clause": "all relations and output shapes, in floats"}]
+    return [{"module": "c04", "task": "relations", "kind": "bounded", "clause": "all relations and output shapes, in floats"},
+            {"module": "stateful", "task": "C04", "name": "stateful", "kind": "bounded", "clause": "deprecated Formula.neutron_sld method vs nsf.neutron_sld; argument arrays untouched"}]
 
 
 REPLAY = {'module': 'c04', 'task': 'replay'}
